@@ -18,6 +18,7 @@ reg(Spec(
         "one GenericSyncMap method call = one critical section (checked: the request's lock trace must be [Len; Iterate])",
         "WaitForReady's select is modelled as the sequence of arms taken; wall-clock polling is observed, not proved",
         "overlapping registrations / ready-marks (one paused before each of its lock acquisitions while others run completely): IsReady, a WaitForReady started afterwards (watched 5 ms when it must not complete, 2 s when it must) and /readyz must all be the sequential model's answers for ONE order of the overlapping calls; oracle only, no Coq case files",
+        "request histories (harness/health/requests.go; oracle only, no Coq case files): registrations / ready-marks with requests in between against ONE handler - GET, HEAD, POST, OPTIONS, PUT, DELETE, PROPFIND; through httptest.ResponseRecorder, a ResponseWriter whose 1st or 2nd Write fails or is short, a real httptest.Server connection (keep-alive client, raw connection reset after the request) - issued from one goroutine, half of the cases with GOMAXPROCS 1: every completely received GET answer has the status code, verdict and components of the history and a body that is exactly ONE JSON document; for other methods only a 200 / 503 (and a body sent with it) is judged, a failing writer's answer by its status code; answers lost to a transport error are not judged",
         "daemon wiring: C18 is read as a statement about registered component NAMES; 'named-pipe-processor' is registered twice and marked by both pipe ingesters, so readiness needs the audit processor and at least ONE ingester (C18_daemon_ready_needs: an observation, reported, not raised)",
     ],
     modelled=["internal/health/health.go (AddReadiness, OnReady, IsReady, GetReadyzStatusMap, readyzHandler, WaitForReady)",
@@ -114,7 +115,10 @@ SSHD_ASSUME = [
     "patterns is assumed and exercised by the correspondence, per event (stage sshd) and per FindStringSubmatchIndex call (stage prims)",
     "lines longer than 160 bytes are judged by the oracle only (the model's matcher is polynomial, Go's linear)",
     "data values in which json.Marshal replaced invalid UTF-8 are not compared byte for byte",
-    "select with both arms ready is not generated: the hand-off is either taken (reader ready, ctx live) or cancelled (ctx cancelled, no reader)",
+    "select with both arms ready (C05 only: context cancelled before the line or from inside the event write WHILE the correlator receives) is judged by the oracle alone - at most one login, the written event, nil returned; "
+    "such cases are not sent to the model, whose hand-off is either taken (reader ready, ctx live) or cancelled (ctx cancelled, no reader); with a rejected write they are (error returned, nothing forwarded, whatever the context)",
+    "ORDER is an input (C17 C05 C11 C19): the model is a function of the line, the harness processes generated cases right after genuine lines of every recognised kind (and after unrecognised ones) on the ONE long-lived processor; "
+    "a replay carries the (up to 40) lines processed before the failing one",
 ]
 SSHD_MODELLED = ["processors/sshd handlers (capture-to-field mapping, placeholders, metric calls inside handlers, write + hand-off); regexes and dispatch switch are generated"]
 
